@@ -85,3 +85,38 @@ package core
 //@                        world.recSeq[f.ContentId] == u.txStore.store[f.TxId].store[f.Key].l.elems[len(u.txStore.store[f.TxId].store[f.Key].l.elems)-1].v.Seq
 //@   ensures  failed:  result != nil ==> (forall l *core.List[model.File] :: l.elems == old(l.elems)) &&
 //@                        (forall c string :: world.hasRec[c] == old(world.hasRec[c]) && world.recSeq[c] == old(world.recSeq[c]) && world.recTx[c] == old(world.recTx[c]))
+
+// ---- reads ----
+// isLatest: r is the newest version of key in tx (zero value if there is none).
+//@ pure func isLatest(tx *core.Transaction, key string, r model.File) bool =
+//@     (has(tx.store, key) && len(tx.store[key].l.elems) > 0 ==> r == *tx.store[key].l.elems[len(tx.store[key].l.elems)-1].v) &&
+//@     (!(has(tx.store, key) && len(tx.store[key].l.elems) > 0) ==> r == zero(model.File))
+// isLastBefore: r is the newest version of key in tx with a sequence number strictly below p (zero value if there is none).
+//@ pure func isLastBefore(tx *core.Transaction, key string, p int, r model.File) bool =
+//@     ((!has(tx.store, key) || forall i int :: 0 <= i && i < len(tx.store[key].l.elems) ==> tx.store[key].l.elems[i].v.Seq >= p) ==> r == zero(model.File)) &&
+//@     (has(tx.store, key) && (exists i int :: 0 <= i && i < len(tx.store[key].l.elems) && tx.store[key].l.elems[i].v.Seq < p) ==>
+//@         exists k int :: 0 <= k && k < len(tx.store[key].l.elems) && r == *tx.store[key].l.elems[k].v && tx.store[key].l.elems[k].v.Seq < p &&
+//@             (k == len(tx.store[key].l.elems)-1 || tx.store[key].l.elems[k+1].v.Seq >= p))
+
+//@ func (*UseCase).getFileFromTx
+//@   requires tx:     tx != nil && txInv(tx) && (beforeSeq != nil ==> !tx.WithoutSearch)
+//@   ensures  latest: beforeSeq == nil ==> isLatest(tx, key, result)
+//@   ensures  before: beforeSeq != nil ==> isLastBefore(tx, key, *beforeSeq, result)
+
+// Get: without a filter the newest version in the all-store (ReadUncommitted); with a filter the newer of
+// the caller's own newest version and the filter transaction's newest version (or its newest version
+// before the filter's sequence number).  A zero sequence number means "no version": ErrNotFound.
+//@ func (*UseCase).Get
+//@   requires inv:      ucInv(u)
+//@   ensures  class:    result1 != nil ==> result1 == fs_db.ErrNotFound
+//@   ensures  found:    result1 == nil ==> result0.Seq != 0
+//@   exitassert ru:     filter.TxId == nil && filter.BeforeSeq == nil ==> isLatest(&u.allStore, key, f) && s == zero(model.File)
+//@   exitassert own:    filter.TxId != nil ==> (has(u.txStore.store, txId) ==> isLatest(u.txStore.store[txId], key, f)) &&
+//@                         (!has(u.txStore.store, txId) ==> f == zero(model.File))
+//@   exitassert snap:   filter.TxId != nil && has(u.txStore.store, *filter.TxId) ==>
+//@                         (filter.BeforeSeq == nil ==> isLatest(u.txStore.store[*filter.TxId], key, s)) &&
+//@                         (filter.BeforeSeq != nil ==> isLastBefore(u.txStore.store[*filter.TxId], key, *filter.BeforeSeq, s))
+//@   exitassert nosnap: filter.TxId != nil && !has(u.txStore.store, *filter.TxId) ==> s == zero(model.File)
+//@   exitassert neither: filter.TxId == nil && filter.BeforeSeq != nil ==> f == zero(model.File) && s == zero(model.File)
+//@   exitassert merge:  result1 == nil ==> result0 == ite(f.Seq > s.Seq, f, s)
+//@   exitassert miss:   result1 != nil <==> ite(f.Seq > s.Seq, f.Seq, s.Seq) == 0
